@@ -230,6 +230,8 @@ class Fn:
                 return "String"
             if e.func.value.attr == "_storage" and e.func.attr == "_deserialize_storage_item":
                 return "Point"
+            if e.func.value.attr == "_storage" and e.func.attr == "_deserialize_timestamp":
+                return "DateTime"
             if e.func.value.attr == "_index" and e.func.attr == "search":
                 return "IndexResult"
         if isinstance(e, ast.Attribute) and self.ty(e.value) == "IndexResult" and e.attr in ("_items", "items"):
@@ -470,6 +472,11 @@ class Fn:
             return f"(!{self.cond(e.operand)})"
         if isinstance(e, ast.BoolOp):
             parts = [self.cond(v) for v in e.values]
+            if len(parts) == 2 and "←" in parts[1]:
+                # the second operand may raise: it is evaluated only when the first does not decide
+                if isinstance(e.op, ast.And):
+                    return f"(← (if {parts[0]} then (do pure {parts[1]}) else (pure false)))"
+                return f"(← (if {parts[0]} then (pure true) else (do pure {parts[1]})))"
             if any("←" in p for p in parts[1:]):
                 raise Unsupported("short-circuit over an operand that may raise")
             op = " && " if isinstance(e.op, ast.And) else " || "
@@ -509,6 +516,8 @@ class Fn:
         kw = {k.arg: k.value for k in e.keywords}
         if isinstance(f, ast.Name):
             n = f.id
+            if n == "len" and len(e.args) == 1 and not kw and self.ty(e.args[0]) == "Storage":
+                return f"(Storage.__len__ {self.atom(e.args[0])})"
             if n == "len" and len(e.args) == 1 and not kw and self.ty(e.args[0]) == "IndexImpl.Self":
                 return f"(← IndexImpl.__len__ {self.atom(e.args[0])})"
             if n == "len" and len(e.args) == 1 and not kw:
@@ -541,10 +550,15 @@ class Fn:
                 return f"(ext.index_is_exact {self.atom(e.args[0])})"
             if self.env.get(n) == "Q" and len(e.args) == 1 and not kw:
                 return f"(← ext.call {n} {self.atom(e.args[0])})"
+            if n == "sorted" and len(e.args) == 1 and not kw:
+                return f"(sortedStr {self.atom(e.args[0])})"          # sorting a collection of strings
             if n == "sorted" and len(e.args) == 1 and set(kw) == {"key"} and isinstance(kw["key"], ast.Lambda):
                 return f"(sortedBy {self.lam(kw['key'])} {self.atom(e.args[0])})"
             raise Unsupported("call of " + n)
         if isinstance(f, ast.Attribute):
+            if (f.attr == "replace" and not e.args and set(kw) == {"tzinfo"} and isinstance(kw["tzinfo"], ast.Attribute)
+                    and kw["tzinfo"].attr == "utc" and self.ty(f.value) == "DateTime"):
+                return f"(DateTime.replaceTzUtc {self.atom(f.value)})"
             if kw:
                 raise Unsupported("keyword call " + ast.dump(e))
             recv, args = f.value, e.args
@@ -565,6 +579,10 @@ class Fn:
             if _is_self_attr(recv) and recv.attr == "_storage" and f.attr in ("_deserialize_measurement", "_deserialize_storage_item") \
                     and len(args) == 1:
                 return f"(Storage.{f.attr} self._storage {self.atom(args[0])})"
+            if _is_self_attr(recv) and recv.attr == "_index" and f.attr in INDEX_READERS:
+                return f"(← IndexImpl.{f.attr} self._index {' '.join(self.atom(a) for a in args)})".replace(" )", ")")
+            if _is_self_attr(recv) and recv.attr == "_storage" and f.attr == "_deserialize_timestamp" and len(args) == 1:
+                return f"(Storage._deserialize_timestamp self._storage {self.atom(args[0])})"
             if _is_self_attr(recv) and recv.attr == "_index" and f.attr == "search" and len(args) == 1:
                 return f"(← ext.index_search self._index {self.atom(args[0])})"
             if isinstance(recv, ast.Name) and self.env.get(recv.id) == "SimpleQuery" and f.attr == "_test" and len(args) == 1:
@@ -1051,7 +1069,9 @@ INDEX_METHODS = [
 ]
 
 # the methods of `TinyFlux` that are translated (the list level: storage is the decoded view of its rows)
-DATABASE_METHODS = ["_reset_database", "_remove_helper", "count", "contains"]
+DATABASE_METHODS = ["_reset_database", "_remove_helper", "count", "contains",
+                    "__len__", "get_field_keys", "get_field_values", "get_measurements", "get_tag_keys", "get_timestamps"]
+INDEX_READERS = ("get_field_keys", "get_field_values", "get_measurements", "get_tag_keys", "get_tag_values", "get_timestamps")
 
 
 def generate_index(src: str) -> str:
